@@ -58,6 +58,15 @@ ASSUMPTIONS = [
     "unless rank_id= is given; operands that store only explicit defaults are not projected (DESIGN section 5 row 22, "
     "reported by C07); projections only of fibers with a declared shape",
     "name and color are not part of the property",
+    "a tensor-level split called with rankid= AND a depth= that names another rank renames / reshapes / formats the rank "
+    "named by rankid (Fiber.splitUniform / splitNonUniform / splitEqual / splitUnEqual document that rankid overrides "
+    "depth, and the data is split there)",
+    "second-generation programs (mc/compose.py): as a second step flattenRanks with absolute / linear / relative only on "
+    "ranks holding int coordinates, linear only with a declared shape, relative only directly after the relative-coordinate "
+    "split of the same rank; programs whose flatten would have to merge stored elements are skipped; no shape is demanded "
+    "after a relative-coordinate split or after flattening a rank whose shape is already a tuple; swizzleRanks is not "
+    "applied to tensors holding a list-named rank; every earlier tensor of a chain must keep reporting the rank ids, "
+    "authoritative shape and default it reported when it was made",
 ]
 
 DFLT = 7
@@ -782,13 +791,15 @@ def run(ctx):
         tplan = [("T2(2,2)", "full", None), ("T2(2,3;-v)", "full", None), ("T2(3,2)", "shapefmt", None),
                  ("T3c(2,2,2;<=2|8)", "full", None), ("T3(2,2,2;-v)", "shapefmt", 900)]
         lazy_n, join_u = 3, ["T2(2,2)", "T3(2,2,2;-v)"]
+    from mc import compose as _cd
     ctx.bounds = {
+        "compose": _cd.describe(q),
         "transform": "universes (with configuration mode) %s; configurations full = {declared, estimated shape} x "
                      "{default 0, 7} x {C,U}^depth x {mutable False, True}, paired = default and mutable hint move together "
                      "((0,False),(7,True)), shapefmt = shape mode x formats with default 7 and mutable True; swizzleRanks every permutation, swapRanks every depth, flattenRanks every "
                      "legal (depth, levels) x 5 styles (+ unflattenRanks for tuple / pair), mergeRanks absolute / relative, "
                      "splitUniform / splitEqual / splitNonUniform / splitUnEqual (%s, relativeCoords both "
-                     "ways, by depth and by rank id) at every depth, / and //, updateCoords at every depth, updatePayloads, "
+                     "ways, by depth, by rank id, and by rank id together with a depth naming another rank) at every depth, / and //, updateCoords at every depth, updatePayloads, "
                      "and the constructor result itself" % (", ".join("%s:%s" % (n, m) for n, m, _ in tplan),
                                                           "one parameter value" if q else "two parameter values"),
         "lazy": "all ordered pairs of F1(%d) x first operand's active range in {None} + every (s,e) with 0<=s<e<=%d x second "
